@@ -604,6 +604,23 @@ def _run_info(case, out):
         if s.next_float() != ref.next_float():
             out.fail("independence:default-streams-of-separate-info-objects", "continuation")
             return
+    # an id that is looked up, then registered again with another stream (the documented overwrite), then looked up
+    # again: the registry hands out the stream that is registered now
+    try:
+        first = MersenneTwister(77)
+        infos[-1].add_stream("replaced", first)
+        if infos[-1].get_stream("replaced") is not first:
+            out.fail("registry:stale-stream", "first lookup")
+            return
+        second = MersenneTwister(78)
+        infos[-1].add_stream("replaced", second)
+        got = infos[-1].get_stream("replaced")
+        if got is not second or infos[-1].get_streams().get("replaced") is not second:
+            out.fail("registry:stale-stream", "after add_stream with the same id the old stream is still handed out")
+            return
+    except Exception as e:
+        out.fail("raises:info:" + type(e).__name__, repr(e))
+        return
     # one stream object registered under two ids: either both ids name that very object, or - if the container keeps
     # objects of its own - streams that do not influence each other
     try:
